@@ -46,6 +46,7 @@ class Run:
 
     def __init__(self, keep=False):
         base = os.environ.get('VERIF_SCRATCH_BASE', tempfile.gettempdir())
+        os.makedirs(base, exist_ok=True)
         self.dir = tempfile.mkdtemp(prefix='cxverif-', dir=base)
         self.keep = keep
         self.tree = os.path.join(self.dir, 'tree')
